@@ -72,8 +72,21 @@ fn cut_class(doc: &Doc, k: usize) -> String {
         unit_class(&doc.item_ends, 0, k, "block", 18, 8)
     } else if doc.format == Format::Cram {
         let c = unit_class(&doc.item_ends, doc.header_end, k, "container", 0, 0);
-        // the last container of a noodles-written file is the 38-byte EOF container (23-byte header, 15-byte body)
-        if c == "in-container" && doc.bytes.len() - k <= 15 { "in-eof-container-body".into() } else { c }
+        // the last container of a noodles-written file is the EOF container (23-byte header incl. its CRC32, 15-byte
+        // body): a cut inside its HEADER is judged like a cut inside any container; only a cut inside its BODY (the
+        // header, checksum included, is complete) is the known clean-EOF behaviour and keeps its own class
+        if c == "in-container" {
+            let (_, cs) = vnd::walk::cram(&doc.bytes);
+            if let Some(e) = cs.last().filter(|c| c.is_eof) {
+                if k > e.start && k < e.body {
+                    return "in-eof-container-header".into();
+                }
+                if k >= e.body {
+                    return "in-eof-container-body".into();
+                }
+            }
+        }
+        c
     } else if doc.format == Format::Crai {
         "in-gzip-member".into()
     } else if doc.format == Format::Fai {
@@ -112,6 +125,8 @@ fn cuts(doc: &Doc) -> Vec<usize> {
 struct Row {
     doc: usize,
     api: Api,
+    /// The ASYNC reader of the format (vnd::adrive; `api` is then only a placeholder).
+    asyn: bool,
     cuts: Vec<usize>,
     spec: Vec<String>,
 }
@@ -207,7 +222,19 @@ fn main() {
             }
             for &api in Api::all_for(d.format) {
                 let spec = vnd::read_log(d.format, &d.bytes[..], &Opts::for_doc(d).api(api));
-                rows.push(Row { doc: i, api, cuts: c.clone(), spec });
+                rows.push(Row { doc: i, api, asyn: false, cuts: c.clone(), spec });
+            }
+        }
+        // the same complete cut sweep through the async reader of every format in scope (C16 compares sync / async at
+        // a bounded number of cuts; the exhaustive sweep per reader is this check's)
+        for (i, d) in docs.iter().enumerate() {
+            if !in_scope(d.format) {
+                continue;
+            }
+            let mut o = Opts::for_doc(d).api(Api::Eager);
+            o.vpos = false;
+            if let Some(spec) = vnd::adrive::read_log_async(d.format, &d.bytes, &o) {
+                rows.push(Row { doc: i, api: Api::Eager, asyn: true, cuts: cuts(d), spec });
             }
         }
         let (starts, total) = starts_of(&rows);
@@ -218,25 +245,30 @@ fn main() {
                 total,
                 |i| {
                     let (r, c) = locate(rows, starts, i);
-                    format!("doc={} api={:?} cut={} of {}", docs[rows[r].doc].name, rows[r].api, rows[r].cuts[c], docs[rows[r].doc].bytes.len())
+                    format!("doc={} api={} cut={} of {}", docs[rows[r].doc].name, if rows[r].asyn { "Async".to_string() } else { format!("{:?}", rows[r].api) }, rows[r].cuts[c], docs[rows[r].doc].bytes.len())
                 },
                 |i| -> Outcome {
                     let (r, c) = locate(rows, starts, i);
                     let row = &rows[r];
                     let d = &docs[row.doc];
                     let k = row.cuts[c];
-                    let o = Opts::for_doc(d).api(row.api);
-                    let got = vnd::read_log(d.format, &d.bytes[..k], &o);
-                    note(row.doc, 0, &got);
+                    let mut o = Opts::for_doc(d).api(row.api);
+                    let got = if row.asyn {
+                        o.vpos = false;
+                        vnd::adrive::read_log_async(d.format, &d.bytes[..k], &o).unwrap_or_default()
+                    } else {
+                        vnd::read_log(d.format, &d.bytes[..k], &o)
+                    };
+                    note(row.doc, if row.asyn { 4 } else { 0 }, &got);
                     let cls = cut_class(d, k);
-                    let api = format!("{:?}", row.api);
+                    let api = if row.asyn { "Async".to_string() } else { format!("{:?}", row.api) };
                     let decoded = || {
                         format!(
-                            "doc={} ({} bytes, set {}) api={:?} truncated to {k} bytes ({cls}); complete file (hex): {}",
+                            "doc={} ({} bytes, set {}) api={} truncated to {k} bytes ({cls}); complete file (hex): {}",
                             d.name,
                             d.bytes.len(),
                             d.set,
-                            row.api,
+                            if row.asyn { "Async (the format's async reader, vnd::adrive::read_log_async)".to_string() } else { format!("{:?}", row.api) },
                             if d.bytes.len() <= 1600 { hex_full(&d.bytes) } else { format!("{} (regenerate with vnd::corpus)", vmc::hex(&d.bytes)) }
                         )
                     };
@@ -284,7 +316,7 @@ fn main() {
                         Ok(m) => m,
                         Err((symptom, exp, obs)) => return Err(Violation::new(fingerprint(d, &api, "file", &cls, &symptom), decoded(), exp, obs)),
                     };
-                    if d.format == Format::Cram && (cls == "in-container" || cls == "in-eof-container-body") && !ended_err {
+                    if d.format == Format::Cram && (cls == "in-container" || cls == "in-eof-container-header" || cls == "in-eof-container-body") && !ended_err {
                         return Err(Violation::new(
                             fingerprint(d, &api, "file", &cls, "clean-eof-inside-container"),
                             decoded(),
@@ -329,7 +361,7 @@ fn main() {
                     Format::Bam | Format::Bcf => vnd::read_log(d.format, &inner.bytes[..], &Opts::for_doc(d).api(api).raw(true).len(inner.bytes.len())),
                     _ => vnd::read_log(d.format, &d.bytes[..], &Opts::for_doc(d).api(api)),
                 };
-                raw_rows.push(Row { doc: i, api, cuts: raw_cut_list.clone(), spec });
+                raw_rows.push(Row { doc: i, api, asyn: false, cuts: raw_cut_list.clone(), spec });
             }
         }
         let (raw_starts, raw_total) = starts_of(&raw_rows);
